@@ -14,7 +14,7 @@ decided by C01/C08):
       number of such s
   M   sensitivity == max over valuations of that number; influence (exact) == fraction of
       valuations where flipping s flips n, per startpoint; avg_sensitivity == their sum
-Not decided: approximate (approxmc) modes, supergates=True mode, circuits outside the families.
+Not decided: approximate (approxmc) modes, circuits outside the families (supergates=True: one tree-shaped model, a recorded finding).
 """
 import itertools
 from fractions import Fraction
@@ -121,6 +121,22 @@ def run(chk):
     r = P.call(FILE, "sensitization_transform", cn3, "o")
     chk.ob("C11.N.copy-naming", "sensitization_transform::an input named sat", r[0] == "return", file=FILE, func="sensitization_transform", line=fz.node.lineno, fact={"result": str(r)[:160]},
            expect="the transform of a lint-clean circuit (the miter's helper nodes are named apart whatever the node names are)")
+    # influence(..., supergates=True) in exact mode: the same numbers as without the decomposition.  On a tree (no reconvergent
+    # fan-out, so every gate is its own supergate) the product of the per-gate influences treats the inner nets as uniformly
+    # distributed inputs
+    from fractions import Fraction as _Fr
+
+    csg = _b2({"a": ("input", []), "b": ("input", []), "c": ("input", []), "g": ("and", ["a", "b"]), "o": ("or", ["g", "c"])}, outputs=["o"])
+    want_sg = {"a": _Fr(1, 4), "b": _Fr(1, 4), "c": _Fr(3, 4)}
+    r = P.call("props.py", "influence", csg, "o", True, False)
+    n_eval += 1
+    ok = r[0] == "return" and isinstance(r[1], dict) and set(r[1]) == set(want_sg) and all(_Fr(r[1][s_]).limit_denominator(1 << 20) == want_sg[s_] for s_ in want_sg)
+    chk.ob("C11.M.influence-supergates", "influence::supergates=True::or(and(a, b), c)", ok, file="props.py", func="influence", fact={"result": str(r)[:160], "expected": {k_: str(v_) for k_, v_ in want_sg.items()}},
+           expect="the fraction of valuations where flipping s flips n, per startpoint - with or without the supergate decomposition")
+    r = P.call("props.py", "avg_sensitivity", csg, "o", True, False)
+    n_eval += 1
+    ok = r[0] == "return" and isinstance(r[1], (int, float)) and _Fr(r[1]).limit_denominator(1 << 20) == sum(want_sg.values())
+    chk.ob("C11.M.influence-supergates", "avg_sensitivity::supergates=True::or(and(a, b), c)", ok, file="props.py", func="avg_sensitivity", fact={"result": str(r)[:80], "expected": str(sum(want_sg.values()))}, expect="5/4")
     # second pass over the repository's own Circuit class for a few circuits
     from ..pkgenv import FullStackCaller
 
@@ -220,6 +236,23 @@ def per_circuit(chk, P, kname, c, fz, ft):
                             prob = {"problem": "sat differs for the selected endpoint", "assignment": a, "sat": got, "expected": want}
                             break
                 chk.ob("C11.Z.sensitization-endpoints", key, prob is None, file=FILE, func="sensitization_transform", line=fz.node.lineno, fact=prob or {"endpoint": e}, expect="sat == inverting n changes the selected endpoint")
+            # the empty selection selects nothing: refused (the node is in the fan-in of no selected endpoint), or a `sat` that is
+            # never 1 - not the comparison of every output that endpoints=None stands for
+            n0 = sorted(cone)[0]
+            for empty, label in (([], "[]"), (set(), "set()")):
+                r = P.call(FILE, "sensitization_transform", c, n0, empty)
+                n_eval += 1
+                prob = None
+                if r[0] == "raise":
+                    prob = None if r[1] == "ValueError" else {"result": str(r)[:120]}
+                elif r[0] == "return" and "sat" in r[1]:
+                    fr_ = sorted(free_nodes(r[1]))
+                    if any(simulate(r[1], a)["sat"] for a in assignments(fr_)):
+                        prob = {"problem": "an empty endpoint selection is treated like no selection: the outputs are compared", "compared": sorted(x for x in r[1].nodes() if x.startswith("dif_"))}
+                else:
+                    prob = {"result": str(r)[:120]}
+                chk.ob("C11.Z.sensitization-endpoints", f"sensitization_transform::{kname}::{n0}->{label}", prob is None, file=FILE, func="sensitization_transform", line=fz.node.lineno, fact=prob or {},
+                       expect="ValueError, or sat constant 0")
         # ---- T / M: sensitivity_transform, sensitivity, influence --------
         wants_by_node = {}
         for n in sorted(c.nodes()):
